@@ -172,7 +172,10 @@ class Ctx:
         spec = os.path.join(VERIF, "spec")
         for f in os.listdir(spec):
             if f.endswith(".tla") or f.endswith(".cfg"):
-                shutil.copy(os.path.join(spec, f), wd)
+                try:
+                    shutil.copy(os.path.join(spec, f), wd)
+                except FileNotFoundError:
+                    pass  # a scratch file of a concurrent editor vanished; not ours
         cfg = cfg or (module + ".cfg")
         cmd = ["java", "-XX:+UseParallelGC", "-Xmx" + heap, "-Xss256m"]
         if dfs:
